@@ -38,6 +38,7 @@ TEMPLATES = {
     "is_in_list_longer": ("    assert [x0, x1, x2] == snapshot([Is(c0), c1])\n", ["x0", "x1", "x2", "c0", "c1"]),
     "unicode_dict_delete": ("    assert {'ä': x0} == snapshot({'ä': c0, 'b': c1})\n", ["x0", "c0", "c1"]),
     "unicode_before_nested": ("    assert ('é€', x0, [x1]) == ('é€', snapshot(c0), snapshot([c1, c2]))\n", ["x0", "x1", "c0", "c1", "c2"]),
+    "unicode_multiline_literal_replaced": ("    assert [x0, 'ß', x1] == snapshot([\"\"\"é\nüö\"\"\", 'ß', \"\"\"\U0001F600\n€\"\"\"])  # ü\n", ["x0", "x1"]),
     "unicode_list_mixed": ("    a = 'äöü'; assert [x0, x1, 'ß'] == snapshot([c0, 'ß', c1]); b = '✓'\n", ["x0", "x1", "c0", "c1"]),
     "in_multiline_trailing_comma": ("    s = snapshot([\n        c0,\n        c1,\n    ])\n    assert x0 in s\n", ["x0", "c0", "c1"]),
     "in_spaces_before_bracket": ("    assert x0 in snapshot([c0, c1 ])\n    assert x1 in snapshot( [ c2 , ] )\n", ["x0", "x1", "c0", "c1", "c2"]),
@@ -109,7 +110,7 @@ def conditions(tier):
 
 
 META = {
-    "bounds": {"quick": f"{len(TEMPLATES)} templates (failing comparison before later snapshots, exception in the test, nested snapshot() in aligned list/tuple/dict/dataclass of different lengths, nested snapshot whose parent is replaced, comparisons that raise, snapshot used with the wrong container type, mixed operations, changing argument, module-level snapshot shared by a failing test); all values symbolic ints; all 16 approved subsets",
+    "bounds": {"quick": f"{len(TEMPLATES)} templates (non-ASCII lines incl. replaced multi-line literals, failing comparison before later snapshots, exception in the test, nested snapshot() in aligned list/tuple/dict/dataclass of different lengths, nested snapshot whose parent is replaced, comparisons that raise, snapshot used with the wrong container type, mixed operations, changing argument, module-level snapshot shared by a failing test); all values symbolic ints; all 16 approved subsets",
                "thorough": "same"},
     "outside": "test programs outside the template list; layouts (C03); faults of the environment (C15); hand-written snapshot values of the wrong container type for the operation (`x in snapshot(5)`, `x in snapshot((1, 2))`, `snapshot(5)[k]`) crash at collection on this tree but are not documented usage",
     "assumptions": ["an exception that the plain comparison raises too must surface in the test; only exceptions escaping pytest_sessionfinish (or configure/fixture) count",
